@@ -6,7 +6,7 @@ import sqlite3
 import stat as statmod
 
 from . import dbview
-from .chooser import Chooser
+from .chooser import Chooser, derive_seed
 from .gen import render
 from .simfs import digest_of
 from .world import World, director_main
@@ -94,7 +94,21 @@ class Universe:
                         fs.makedirs("user", d)
                     if os.path.isdir(path) and not os.path.islink(path):
                         fs.rmtree("user", path)
-                    fs.write("user", path, text)
+                    old = self.user_files.get(path)
+                    if (
+                        old is not None
+                        and old[1] == mode
+                        and len(old[0]) == len(text)
+                        and os.path.isfile(path)
+                        and not os.path.islink(path)
+                        and derive_seed("preserve", path, text) % 4 == 0
+                    ):
+                        # one same-size edit in four arrives the way rsync -t delivers it:
+                        # new inode, old mode and mtime (only the content tells the change)
+                        fs.replace_preserving("user", path, text)
+                        self.world.count("user.replace_preserving")
+                    else:
+                        fs.write("user", path, text)
                     cur = statmod.S_IMODE(os.stat(path).st_mode)
                     if cur != mode:
                         fs.chmod("user", path, mode)
@@ -110,6 +124,18 @@ class Universe:
                     if d and not os.path.isdir(d):
                         fs.makedirs("user", d)
                     fs.write("user", path, text)
+                elif kind == "raw_replace_same_size":
+                    # vandalism as `rsync -t` delivers it: other bytes of the same length under
+                    # a new inode, mode and mtime as before
+                    path = op[1]
+                    with open(path, "rb") as fh:
+                        cur_bytes = fh.read()
+                    new = bytes((b + 1) % 256 if 32 <= b < 126 else b for b in cur_bytes)
+                    if new == cur_bytes:
+                        fs.write("user", path, cur_bytes + b"!")
+                    else:
+                        fs.replace_preserving("user", path, new)
+                        self.world.count("user.replace_preserving")
                 elif kind == "raw_remove":
                     if os.path.isdir(op[1]) and not os.path.islink(op[1]):
                         fs.rmtree("user", op[1])
